@@ -192,8 +192,8 @@ Proof.
   destruct IH as [r Hr]; [intros q Hq; apply H; right; exact Hq|]. rewrite Hr. eexists; reflexivity.
 Qed.
 
-Lemma items_co : forall pts ws i it, length pts = length ws -> In it (mk_items i pts ws) ->
-  exists p, In p pts /\ co it = map f64_to_f32 p.
+Lemma items_co c : forall pts ws i it, length pts = length ws -> In it (mk_items c i pts ws) ->
+  exists p, In p pts /\ co it = map (cast32 c) p.
 Proof.
   induction pts as [|p t IH]; intros [|w ws] i it H Hit; cbn [mk_items length] in *; try discriminate; [destruct Hit|].
   destruct Hit as [<-|Hit].
@@ -207,7 +207,7 @@ Proof. induction l as [|x t IH]; intros [|n]; cbn [map nth_opt option_map]; auto
 (* the boxes of all axes from a on *)
 Lemma bbox_ok : forall D a pts ws, pts <> [] -> length pts = length ws ->
   (forall p, In p pts -> (a + D <= length p)%nat) -> coords_in_f32_range pts ->
-  exists bb, bbox32 D a pts = Some bb /\ box_ok_from a bb (mk_items 0 pts ws) = true.
+  exists bb, bbox32 false D a pts = Some bb /\ box_ok_from a bb (mk_items false 0 pts ws) = true.
 Proof.
   induction D as [|D IH]; intros a pts ws Hne Hlen Hshape Hr; cbn [bbox32].
   - exists []. split; reflexivity.
@@ -227,13 +227,13 @@ Proof.
                   (or_introl (conj eq_refl (conj eq_refl eq_refl))) Hcne) as S.
     destruct (bbox_axis f64_max_value f64_min_value col) as [lo hi]. cbn [app] in S.
     destruct S as (Ilo & Ihi & Hall).
-    eexists. split; [reflexivity|]. cbn [box_ok_from].
+    eexists. split; [reflexivity|]. cbn [box_ok_from]. unfold cast32.
     rewrite Forall_forall in Hcr.
     pose proof (Hcr lo Ilo) as Rlo. pose proof (Hcr hi Ihi) as Rhi.
     rewrite (to32_fin lo (proj2 (proj2 Rlo))), (to32_fin hi (proj2 (proj2 Rhi))), Hok. cbn [andb].
     rewrite andb_true_r. apply forallb_forall. intros it Hit.
-    destruct (items_co pts ws 0%N it Hlen Hit) as (p & Hp & Hco). rewrite Hco, nth_opt_map.
-    destruct (Cin p Hp) as (c & Hn & Hc). rewrite Hn. cbn [option_map].
+    destruct (items_co false pts ws 0%N it Hlen Hit) as (p & Hp & Hco). rewrite Hco, nth_opt_map.
+    destruct (Cin p Hp) as (c & Hn & Hc). rewrite Hn. cbn [option_map]. unfold cast32.
     destruct (Hall c Hc) as [A B].
     rewrite (to32_mono lo c Rlo (Hcr c Hc) A), (to32_mono c hi (Hcr c Hc) Rhi B). reflexivity.
 Qed.
@@ -242,7 +242,193 @@ Qed.
 Theorem box_ok32_holds : forall D pts ws, pts <> [] -> length pts = length ws ->
   Forall (fun p => length p = D) pts -> coords_in_f32_range pts -> box_ok32 D pts ws = true.
 Proof.
-  intros D pts ws Hne Hlen Hshape Hr. unfold box_ok32.
+  intros D pts ws Hne Hlen Hshape Hr. unfold box_ok32, box_ok32c.
   destruct (bbox_ok D 0%nat pts ws Hne Hlen) as (bb & -> & Hok); [|exact Hr|exact Hok].
+  intros p Hp. rewrite Forall_forall in Hshape. rewrite (Hshape p Hp). lia.
+Qed.
+
+(* ================= the clamped cast ================= *)
+Local Open Scope R_scope.
+
+Definition coord_finite64 (c : spec_float) : Prop := valid64 c = true /\ SFloat.is_finite c = true.
+Definition coords_finite_valid64 (pts : list (list spec_float)) : Prop :=
+  Forall (fun p => Forall coord_finite64 p) pts.
+
+Lemma f32_max_shape : f32_max_value = S754_finite false 16777215 104.
+Proof. vm_compute. reflexivity. Qed.
+Lemma f32_min_shape : f32_min_value = S754_finite true 16777215 104.
+Proof. vm_compute. reflexivity. Qed.
+Lemma f32_max_fin : f32_fin f32_max_value = true. Proof. vm_compute. reflexivity. Qed.
+Lemma f32_min_fin : f32_fin f32_min_value = true. Proof. vm_compute. reflexivity. Qed.
+
+Lemma SF2R_max : SF2R radix2 f32_max_value = MX.
+Proof.
+  rewrite f32_max_shape. unfold MX.
+  change (SF2R radix2 (S754_finite false 16777215 104)) with (IZR 16777215 * bpow radix2 104).
+  change (bpow radix2 128) with (IZR (2 ^ 128)). change (bpow radix2 (128 - 24)) with (IZR (2 ^ 104)).
+  change (bpow radix2 104) with (IZR (2 ^ 104)). rewrite <- mult_IZR, <- minus_IZR. f_equal.
+Qed.
+Lemma SF2R_min : SF2R radix2 f32_min_value = - MX.
+Proof.
+  rewrite f32_min_shape. rewrite <- SF2R_max, f32_max_shape.
+  change (SF2R radix2 (S754_finite true 16777215 104)) with (IZR (- 16777215) * bpow radix2 104).
+  change (SF2R radix2 (S754_finite false 16777215 104)) with (IZR 16777215 * bpow radix2 104).
+  replace (IZR (- 16777215)) with (- IZR 16777215) by (rewrite <- opp_IZR; reflexivity). ring.
+Qed.
+
+(* a finite canonical binary32 value lies in [f32::MIN, f32::MAX] *)
+Lemma fin_abs_le_MX y : f32_fin y = true -> Rabs (SF2R radix2 y) <= MX.
+Proof.
+  intros H. destruct (lift y H) as (Y & <- & FY). rewrite SF2R_B2SF.
+  exact (abs_B2R_le_emax_minus_prec 24 128 Hprec Y).
+Qed.
+
+Lemma clamp32_fin_id y : f32_fin y = true -> clamp32 y = y.
+Proof.
+  intros H. pose proof (fin_abs_le_MX y H) as B. unfold clamp32.
+  assert (E1 : flt y f32_min_value = false).
+  { rewrite (cmp32 _ _ H f32_min_fin), SF2R_min. apply Rlt_bool_false.
+    pose proof (Rle_abs (- SF2R radix2 y)) as Q. rewrite Rabs_Ropp in Q. lra. }
+  rewrite E1.
+  assert (E2 : flt f32_max_value y = false).
+  { rewrite (cmp32 _ _ f32_max_fin H), SF2R_max. apply Rlt_bool_false. pose proof (Rle_abs (SF2R radix2 y)). lra. }
+  rewrite E2. reflexivity.
+Qed.
+
+(* the clamped cast of a finite f64: a finite canonical binary32 value whose
+   real value is the rounding clamped to [-MX, MX] *)
+Definition clampR (z : R) : R := Rmax (- MX) (Rmin MX z).
+
+Lemma clampR_mono a b : a <= b -> clampR a <= clampR b.
+Proof. intros H. unfold clampR. apply Rle_max_compat_l, Rle_min_compat_l, H. Qed.
+
+Lemma cast_true_real x : SFloat.is_finite x = true ->
+  f32_fin (cast32 true x) = true /\ SF2R radix2 (cast32 true x) = clampR (rnd (SF2R radix2 x)).
+Proof.
+  intros Fx. unfold cast32. pose proof MX_pos as HMX.
+  destruct (SFloat.is_finite (f64_to_f32 x)) eqn:Fi.
+  - (* finite image: the clamp is the identity *)
+    pose proof (to32_fin x Fi) as F32. rewrite (clamp32_fin_id _ F32). split; [exact F32|].
+    destruct (to32_real x Fx Fi) as [Rv _]. rewrite Rv.
+    pose proof (fin_abs_le_MX _ F32) as B. rewrite Rv in B.
+    unfold clampR. rewrite Rmin_right, Rmax_right; try reflexivity.
+    + pose proof (Rle_abs (- rnd (SF2R radix2 x))) as Q. rewrite Rabs_Ropp in Q. lra.
+    + pose proof (Rle_abs (rnd (SF2R radix2 x))). lra.
+  - (* overflow: the image is the infinity of the sign of x *)
+    destruct x as [s|s| |s m e]; try discriminate; try (cbn in Fi; discriminate).
+    unfold f64_to_f32 in *. rewrite binary_round_equiv in *.
+    pose proof (binary_round_correct 24 128 Hprec Hmax mode_NE s m e) as [_ H]. cbv zeta in H. cbn [round_mode] in H.
+    change (SF2R radix2 (S754_finite s m e)) with (F2R (Float radix2 (cond_Zopp s (Zpos m)) e)).
+    set (r := F2R (Float radix2 (cond_Zopp s (Z.pos m)) e)) in *.
+    destruct (Rlt_bool_spec (Rabs (rnd r)) (bpow radix2 128)) as [Hlt|Hge].
+    + destruct H as (_ & Hf & _). destruct (binary_round 24 128 mode_NE s m e); try discriminate; cbn in Fi; discriminate.
+    + rewrite H. unfold binary_overflow. cbn [overflow_to_inf].
+      assert (Hb : MX < bpow radix2 128) by apply MX_lt.
+      destruct s.
+      * (* negative *)
+        assert (Hr0 : rnd r <= 0).
+        { rewrite <- (round_0 radix2 fexp32 ZnearestE). apply rnd_mono. unfold r, F2R. cbn [cond_Zopp Fnum Fexp].
+          pose proof (bpow_gt_0 radix2 e). assert (IZR (- Z.pos m) < 0) by (apply IZR_lt; lia). nra. }
+        rewrite Rabs_left1 in Hge by exact Hr0.
+        split; [vm_compute; reflexivity|].
+        change (clamp32 (S754_infinity true)) with f32_min_value. rewrite SF2R_min.
+        unfold clampR. rewrite Rmin_right by lra. rewrite Rmax_left by lra. reflexivity.
+      * assert (Hr0 : 0 <= rnd r).
+        { rewrite <- (round_0 radix2 fexp32 ZnearestE). apply rnd_mono. unfold r, F2R. cbn [cond_Zopp Fnum Fexp].
+          pose proof (bpow_gt_0 radix2 e). assert (0 < IZR (Z.pos m)) by (apply IZR_lt; lia). nra. }
+        rewrite Rabs_pos_eq in Hge by exact Hr0.
+        split; [vm_compute; reflexivity|].
+        change (clamp32 (S754_infinity false)) with f32_max_value. rewrite SF2R_max.
+        unfold clampR. rewrite Rmin_left by lra. rewrite Rmax_right by lra. reflexivity.
+Qed.
+
+Lemma cast_true_mono x y : coord_finite64 x -> coord_finite64 y ->
+  flt y x = false -> flt (cast32 true y) (cast32 true x) = false.
+Proof.
+  intros (Vx & Fx) (Vy & Fy) H.
+  rewrite (cmp64 y x Vy Vx Fy Fx) in H.
+  destruct (cast_true_real x Fx) as [Gx Rx]. destruct (cast_true_real y Fy) as [Gy Ry].
+  rewrite (cmp32 _ _ Gy Gx), Rx, Ry.
+  destruct (Rlt_bool_spec (SF2R radix2 y) (SF2R radix2 x)) as [|Hle]; [discriminate|].
+  apply Rlt_bool_false. apply clampR_mono, rnd_mono. exact Hle.
+Qed.
+
+Local Open Scope Z_scope.
+
+Lemma finite64_nonnan c : coord_finite64 c -> f32v c = true.
+Proof. intros (_ & F). destruct c; try discriminate; reflexivity. Qed.
+
+(* the fold of one axis on finite f64 values: finite f64 bounds that are not
+   above / below any element (the bounds may be the initial f64::MAX / f64::MIN) *)
+Lemma bbox_axis_spec_finite : forall col mn mx seen,
+  Forall coord_finite64 col -> coord_finite64 mn -> coord_finite64 mx ->
+  (forall v, In v seen -> coord_finite64 v /\ flt v mn = false /\ flt mx v = false) ->
+  let '(lo, hi) := bbox_axis mn mx col in
+  coord_finite64 lo /\ coord_finite64 hi
+  /\ forall v, In v (seen ++ col) -> flt v lo = false /\ flt hi v = false.
+Proof.
+  induction col as [|v t IH]; intros mn mx seen Hc Hmn Hmx Hall; cbn [bbox_axis].
+  - rewrite app_nil_r. split; [exact Hmn|]. split; [exact Hmx|]. intros w Hw. exact (proj2 (Hall w Hw)).
+  - inversion Hc as [|? ? Hv Ht]; subst.
+    replace (seen ++ v :: t) with ((seen ++ [v]) ++ t) by (rewrite <- app_assoc; reflexivity).
+    pose proof (finite64_nonnan v Hv) as Nv. pose proof (finite64_nonnan mn Hmn) as Nmn. pose proof (finite64_nonnan mx Hmx) as Nmx.
+    apply IH; [exact Ht| | |].
+    + destruct (flt v mn); assumption.
+    + destruct (flt mx v); assumption.
+    + intros w Hw. apply in_app_or in Hw.
+      assert (Fw : coord_finite64 w) by (destruct Hw as [Hw|[<-|[]]]; [exact (proj1 (Hall w Hw))|exact Hv]).
+      pose proof (finite64_nonnan w Fw) as Nw.
+      split; [exact Fw|]. split.
+      * destruct (flt v mn) eqn:E.
+        -- destruct Hw as [Hw|[<-|[]]]; [|apply flt_irrefl, Nv].
+           destruct (flt w v) eqn:Q; [|reflexivity]. exfalso.
+           pose proof (flt_trans w v mn Nw Nv Nmn Q E) as Q2. rewrite (proj1 (proj2 (Hall w Hw))) in Q2. discriminate.
+        -- destruct Hw as [Hw|[<-|[]]]; [exact (proj1 (proj2 (Hall w Hw)))|exact E].
+      * destruct (flt mx v) eqn:E.
+        -- destruct Hw as [Hw|[<-|[]]]; [|apply flt_irrefl, Nv].
+           destruct (flt v w) eqn:Q; [|reflexivity]. exfalso.
+           pose proof (flt_trans mx v w Nmx Nv Nw E Q) as Q2. rewrite (proj2 (proj2 (Hall w Hw))) in Q2. discriminate.
+        -- destruct Hw as [Hw|[<-|[]]]; [exact (proj2 (proj2 (Hall w Hw)))|exact E].
+Qed.
+
+Lemma f64_max_finite64 : coord_finite64 f64_max_value.
+Proof. split; vm_compute; reflexivity. Qed.
+Lemma f64_min_finite64 : coord_finite64 f64_min_value.
+Proof. split; vm_compute; reflexivity. Qed.
+
+Lemma bbox_ok_clamped : forall D a pts ws, length pts = length ws ->
+  (forall p, In p pts -> (a + D <= length p)%nat) -> coords_finite_valid64 pts ->
+  exists bb, bbox32 true D a pts = Some bb /\ box_ok_from a bb (mk_items true 0 pts ws) = true.
+Proof.
+  induction D as [|D IH]; intros a pts ws Hlen Hshape Hr; cbn [bbox32].
+  - exists []. split; reflexivity.
+  - destruct (column_total a pts) as [col Hcol]; [intros p Hp; specialize (Hshape p Hp); lia|].
+    rewrite Hcol.
+    destruct (IH (S a) pts ws Hlen) as (r & Hr' & Hok); [intros p Hp; specialize (Hshape p Hp); lia|exact Hr|].
+    rewrite Hr'.
+    destruct (column_spec a pts col Hcol) as [Cin Cout].
+    assert (Hcr : Forall coord_finite64 col).
+    { rewrite Forall_forall. intros c Hc. destruct (Cout c Hc) as (p & Hp & Hn).
+      unfold coords_finite_valid64 in Hr. rewrite Forall_forall in Hr. specialize (Hr p Hp).
+      rewrite Forall_forall in Hr. apply Hr. eapply nth_opt_In; exact Hn. }
+    pose proof (bbox_axis_spec_finite col f64_max_value f64_min_value [] Hcr f64_max_finite64 f64_min_finite64
+                  (fun v (H : In v []) => match H with end)) as S.
+    destruct (bbox_axis f64_max_value f64_min_value col) as [lo hi]. cbn [app] in S.
+    destruct S as (Flo & Fhi & Hall).
+    eexists. split; [reflexivity|]. cbn [box_ok_from].
+    rewrite (proj1 (cast_true_real lo (proj2 Flo))), (proj1 (cast_true_real hi (proj2 Fhi))), Hok. cbn [andb].
+    rewrite andb_true_r. apply forallb_forall. intros it Hit.
+    destruct (items_co true pts ws 0%N it Hlen Hit) as (p & Hp & Hco). rewrite Hco, nth_opt_map.
+    destruct (Cin p Hp) as (c & Hn & Hc). rewrite Hn. cbn [option_map].
+    destruct (Hall c Hc) as [A B]. rewrite Forall_forall in Hcr.
+    rewrite (cast_true_mono lo c Flo (Hcr c Hc) A), (cast_true_mono c hi (Hcr c Hc) Fhi B). reflexivity.
+Qed.
+
+(* with the clamped cast the box premise holds for EVERY finite f64 coordinate set *)
+Theorem box_ok32c_true_holds : forall D pts ws, length pts = length ws ->
+  Forall (fun p => length p = D) pts -> coords_finite_valid64 pts -> box_ok32c true D pts ws = true.
+Proof.
+  intros D pts ws Hlen Hshape Hr. unfold box_ok32c.
+  destruct (bbox_ok_clamped D 0%nat pts ws Hlen) as (bb & -> & Hok); [|exact Hr|exact Hok].
   intros p Hp. rewrite Forall_forall in Hshape. rewrite (Hshape p Hp). lia.
 Qed.
